@@ -531,3 +531,52 @@ func encLabel(n string) string {
 func init() {
 	register(&Scenario{Prop: "C07", Name: "c07/frame-sequences", Quick: []Bound{{0, 0}}, Thorough: []Bound{{0, 0}}, Body: c07Sequences, MinHB: 1})
 }
+
+// whole frames written by the real client / server codecs with a body codec that marshals into
+// the buffer it is given (the code / pb codecs do; BYTES hands back the caller's slice): the
+// arguments / reply decode to what was encoded for every method-name length around and beyond 64
+// bytes, every header encoder and several body sizes.
+func c07WholeFrames(x *X) {
+	encName := encNames[x.Choose(len(encNames))]
+	kind := x.Choose(2)
+	we := wireEncoder(encName)
+	for _, ml := range []int{0, 1, 8, 57, 63, 64, 65, 66, 127, 128, 129, 309, 1000} {
+		for _, bl := range []int{0, 1, 30, 200, 5000} {
+			for _, seq := range []uint64{0, 1, 300, 70000} {
+				rec := &recMsgs{}
+				method := c07Text(ml, encName, 9)
+				msg := &mCode{T: 7 + uint64(bl), D: c07Body(bl, 4)}
+				if kind == 0 {
+					cc := rpc.NewClientCodec(rpc.NewCODECodec(), encoderByName(encName), rec, 0)
+					if err := cc.WriteRequest(rpc.VerifNewContext(seq, nil, method, ""), msg); err != nil || len(rec.frames) != 1 {
+						x.Fail("C07/whole-frame/request/"+encLabel(encName), "WriteRequest (method name of %d bytes, %d argument bytes): %v", ml, bl, err)
+						continue
+					}
+					got, derr := decodeMsg(we, 0, rec.frames[0])
+					var back mCode
+					_, uerr := back.Unmarshal(got.body)
+					if derr != nil || uerr != nil || got.seq != seq || got.text != method || back.T != msg.T || !bytes.Equal(back.D, msg.D) {
+						x.Fail("C07/whole-frame/request/"+encLabel(encName), "a request written by the client codec (method name of %d bytes, %d argument bytes, sequence number %d, body codec code) decodes to seq=%d, a method name of %d bytes (equal: %v), argument tag %d with %d bytes (want tag %d, %d bytes; header err %v, body err %v)", ml, bl, seq, got.seq, len(got.text), got.text == method, back.T, len(back.D), msg.T, len(msg.D), derr, uerr)
+					}
+				} else {
+					sc := rpc.NewServerCodec(rpc.NewCODECodec(), encoderByName(encName), rec, true, 0)
+					if err := sc.WriteResponse(rpc.VerifNewContext(seq, nil, "", ""), msg); err != nil || len(rec.frames) != 1 {
+						x.Fail("C07/whole-frame/response/"+encLabel(encName), "WriteResponse (%d reply bytes): %v", bl, err)
+						continue
+					}
+					got, derr := decodeMsg(we, 1, rec.frames[0])
+					var back mCode
+					_, uerr := back.Unmarshal(got.body)
+					if derr != nil || uerr != nil || got.seq != seq || got.text != "" || back.T != msg.T || !bytes.Equal(back.D, msg.D) {
+						x.Fail("C07/whole-frame/response/"+encLabel(encName), "a response written by the server codec (%d reply bytes, sequence number %d) decodes to seq=%d error=%q reply tag %d with %d bytes (header err %v, body err %v)", bl, seq, got.seq, got.text, back.T, len(back.D), derr, uerr)
+					}
+				}
+			}
+		}
+	}
+	x.Outcome("kind=%d enc=%q", kind, encName)
+}
+
+func init() {
+	register(&Scenario{Prop: "C07", Name: "c07/whole-frames", Quick: []Bound{{0, 0}}, Thorough: []Bound{{0, 0}}, Body: c07WholeFrames, MinHB: 1})
+}
